@@ -95,6 +95,30 @@ def apply_op(lab, op, **runkw):
                     f.seek(off)
                     f.write(bytes([b[0] ^ 0x5a]))
                 os.utime(fp, ns=(st.st_mtime_ns, st.st_mtime_ns))
+    elif k == "collide":
+        # ("collide", disk, path, target, v): a one-block file whose REDUCED hash (hashsize 2) under the array's hash and seed equals
+        # "same" = the hash recorded for block 0 of the file now recorded under that path, "zero" / "invalid" = the all-00 / all-ff
+        # marker values.  Found by plain enumeration of a deterministic stream (about 65536 trials).
+        from . import content as _C, parity as _P
+        _, d, p_, target, v = op
+        c = lab.content()
+        if c.hash_size != 2:
+            raise RuntimeError("collide needs hashsize 2")
+        if target == "same":
+            f = next(x for x in c.disks[d.encode()].files if x.sub == p_.encode())
+            want, pos = f.blocks[0][2], f.blocks[0][1]
+            avoid = lab.read(d, p_)[:c.block_size]
+        else:
+            want, pos, avoid = (b"\0\0" if target == "zero" else b"\xff\xff"), c.blockmax, None
+        i = 0
+        while True:
+            data = lab.gen("collide:%s:%s:%d" % (p_, v, i), c.block_size)
+            if data != avoid and _P.block_hash(c, pos, data) == want:
+                break
+            i += 1
+            if i > 3000000:
+                raise RuntimeError("no colliding block found")
+        lab.write(d, p_, data, file_mtime_ns(p_, len(data), 300 + v))
     elif k == "touch":
         if _isreg(lab, op[1], op[2]):
             st = os.lstat(lab.p(op[1], op[2]))
@@ -370,6 +394,7 @@ class Explorer:
             if not jobs:
                 break
             nxt = []
+            level = {}
             done = 0
             for job, r in par.pmap(_job_global, make_jobs(self, jobs), deadline=self.ctx.deadline):
                 job = job[3:]
@@ -381,11 +406,19 @@ class Explorer:
                 self.ctx.outcome((job[2][0], job[2][1] if job[2][0] == "cmd" else "", r["rc"]))
                 if r["info"].get("stop"):
                     continue
-                if self.dedup and r["canon"] in seen:
+                if not self.dedup:
+                    self.states += 1
+                    nxt.append((intern_saved(r["saved"]), hist, r["info"]))
                     continue
-                seen.add(r["canon"])
-                self.states += 1
-                nxt.append((intern_saved(r["saved"]), hist, r["info"]))
+                if r["canon"] in seen:
+                    continue
+                # completion order is not fixed: the representative of a class is its smallest history of this depth
+                cur = level.get(r["canon"])
+                if cur is None or json.dumps(hist, default=str) < json.dumps(cur[1], default=str):
+                    level[r["canon"]] = (intern_saved(r["saved"]), hist, r["info"])
+            seen.update(level)
+            self.states += len(level)
+            nxt.extend(level.values())
             if done < len(jobs):
                 self.ctx.cap("%s: deadline hit at depth %d (%d of %d transitions of this depth done)" % (
                     self.label, depth, done, len(jobs)))
